@@ -700,10 +700,28 @@ impl Packet {
 
                 options_delta_length += delta;
 
+                #[cfg(all(coap_lite_verif, feature = "std"))]
+                crate::verif::record(crate::verif::CopyEvent::Reserve {
+                    len: options_bytes.len(),
+                    additional: header.len() + value.len(),
+                });
                 options_bytes.reserve(header.len() + value.len());
                 unsafe {
                     use core::ptr;
                     let buf_len = options_bytes.len();
+                    #[cfg(all(coap_lite_verif, feature = "std"))]
+                    {
+                        crate::verif::record(crate::verif::CopyEvent::Copy {
+                            capacity: options_bytes.capacity(),
+                            offset: buf_len,
+                            count: header.len(),
+                        });
+                        crate::verif::record(crate::verif::CopyEvent::Copy {
+                            capacity: options_bytes.capacity(),
+                            offset: buf_len + header.len(),
+                            count: value.len(),
+                        });
+                    }
                     ptr::copy(
                         header.as_ptr(),
                         options_bytes.as_mut_ptr().add(buf_len),
@@ -738,10 +756,28 @@ impl Packet {
 
         match header_result {
             Ok(_) => {
+                #[cfg(all(coap_lite_verif, feature = "std"))]
+                crate::verif::record(crate::verif::CopyEvent::Reserve {
+                    len: buf.len(),
+                    additional: self.token.len() + options_bytes.len(),
+                });
                 buf.reserve(self.token.len() + options_bytes.len());
                 unsafe {
                     use core::ptr;
                     let buf_len = buf.len();
+                    #[cfg(all(coap_lite_verif, feature = "std"))]
+                    {
+                        crate::verif::record(crate::verif::CopyEvent::Copy {
+                            capacity: buf.capacity(),
+                            offset: buf_len,
+                            count: self.token.len(),
+                        });
+                        crate::verif::record(crate::verif::CopyEvent::Copy {
+                            capacity: buf.capacity(),
+                            offset: buf_len + self.token.len(),
+                            count: options_bytes.len(),
+                        });
+                    }
                     ptr::copy(
                         self.token.as_ptr(),
                         buf.as_mut_ptr().add(buf_len),
@@ -761,10 +797,21 @@ impl Packet {
                     && !self.payload.is_empty()
                 {
                     buf.push(0xFF);
+                    #[cfg(all(coap_lite_verif, feature = "std"))]
+                    crate::verif::record(crate::verif::CopyEvent::Reserve {
+                        len: buf.len(),
+                        additional: self.payload.len(),
+                    });
                     buf.reserve(self.payload.len());
                     unsafe {
                         use core::ptr;
                         let buf_len = buf.len();
+                        #[cfg(all(coap_lite_verif, feature = "std"))]
+                        crate::verif::record(crate::verif::CopyEvent::Copy {
+                            capacity: buf.capacity(),
+                            offset: buf_len,
+                            count: self.payload.len(),
+                        });
                         ptr::copy(
                             self.payload.as_ptr(),
                             buf.as_mut_ptr().add(buf.len()),
